@@ -55,6 +55,8 @@ pub struct Loader {
     rules: HashMap<String, SmallMap<String, eval::EvalString<String>>>,
     pools: SmallMap<String, usize>,
     builddir: Option<String>,
+    /// Files currently being parsed, to reject include cycles.
+    include_stack: Vec<PathBuf>,
 }
 
 impl Loader {
@@ -188,6 +190,10 @@ impl Loader {
         path: PathBuf,
         envs: &[&dyn eval::Env],
     ) -> anyhow::Result<()> {
+        if self.include_stack.contains(&path) {
+            bail!("{}: file includes itself", path.display());
+        }
+        self.include_stack.push(path.clone());
         let filename = std::rc::Rc::new(path);
 
         loop {
@@ -235,6 +241,7 @@ impl Loader {
         }
 
         self.builddir = parser.vars.get("builddir").cloned();
+        self.include_stack.pop();
         Ok(())
     }
 }
